@@ -463,7 +463,13 @@ fn plans(run: &mut Run, rng: &mut Rng) {
                 run.count("exec_error");
             }
             // the Lean judge on the exported structure
-            judge_case(run, &plan, &after, &[&ds, &ds2], q.tags.len() >= 2);
+            // the Lean judge is asked only when the implementation-level oracle saw no difference
+            // (a case that already failed is reported under its own signature)
+            if rt::same_outcome(&ob, &oa, q.ordered, level).is_ok() {
+                judge_case(run, &plan, &after, &[&ds, &ds2], q.tags.len() >= 2);
+            } else {
+                run.count("judge_skipped_oracle_failed");
+            }
             // (d) expressions
             if vname == "raw" {
                 let mut es = vec![];
